@@ -5,7 +5,7 @@
    for the generated predicate.  If the .pyx changes its meaning, either
    [gen_cross_is_model] stops compiling or the correspondence run disagrees. *)
 From Coq Require Import ZArith QArith List Bool Lqa.
-From Verif Require Import Model.C15 Proofs.C15 Gen.PnpolyGen.
+From Verif Require Import Model.C15 Proofs.C15 Proofs.C15_sweep Gen.PnpolyGen.
 Import ListNotations.
 Open Scope Q_scope.
 
@@ -73,10 +73,11 @@ Lemma gen_invert_complement poly pts :
        /\ nth_error (gen_filter true poly pts) k = Some (negb (gen_pip poly p)).
 Proof. apply invert_complement. Qed.
 
-Lemma gen_sweep poly p :
-  length poly = 3%nat -> Forall (fun v => In v (grid_pts 3)) poly -> In p (half_pts 3) ->
-  on_boundary poly p = false ->
-  gen_pip poly p = winding_odd poly p
-  /\ gen_pip poly p = pip cross_left poly p
-  /\ (winding4 poly p mod 4 = 0)%Z.
-Proof. rewrite gen_pip_model. apply sweep_theorem. Qed.
+Lemma gen_sweep zpoly zp :
+  (length zpoly = 3%nat /\ Forall (fun v => In v (zgrid 4)) zpoly /\ In zp (zquery 4))
+  \/ (length zpoly = 4%nat /\ Forall (fun v => In v (zgrid 3)) zpoly /\ In zp (zquery 3)) ->
+  on_boundary (map inj zpoly) (inj zp) = false ->
+  gen_pip (map inj zpoly) (inj zp) = winding_odd (map inj zpoly) (inj zp)
+  /\ gen_pip (map inj zpoly) (inj zp) = pip cross_left (map inj zpoly) (inj zp)
+  /\ (winding4 (map inj zpoly) (inj zp) mod 4 = 0)%Z.
+Proof. rewrite gen_pip_model. apply sweep_theorem_z. Qed.
